@@ -762,4 +762,26 @@ example : check (exP.plug (.seq 13 (SeqList.app .nil (.cons (.funcs (FuncList.ap
 -- … while the literal `let func () -> int { 1 }` is fine
 example : check (exP.plug (.call 13 (.funcLit (.mk 13 "" [] .dflt .int (exSeq1 exOne) .nil)) .nil)) = .ok () := rfl
 
+/-! ### the hole may sit INSIDE the new constructs (39 frame kinds): a member of a tuple that is
+the upper bound of a slice of the piped value of a pipe, the argument of that pipe a row element
+of a literal whose projection …  `context_error_propagates` at that depth -/
+def exP2 : ProgCtx :=
+  { exP with frames := exFrames ++
+      [ .pipeA 13 (.id 13 "p") (.id 13 "g") .nil .nil,         -- p |> g( HOLE' )   (arity wrong: irrelevant, the hole is first)
+        .projE 13 13 0,                                        -- HOLE''[0]
+        .tupleE 13 (.cons exOne .nil) .nil (.cons .dflt .int (.cons .dflt .int .nil)),  -- (1, HOLE''') : (int, int)
+        .sliceT 13 (.id 13 "a") [] exOne .nil,                 -- a[1 .. HOLE'''']
+        .pipeL 13 (.id 13 "g") .nil,                           -- HOLE |> g()
+        .derefA 13 (.cons exOne (.cons exOne .nil)),           -- HOLE[1, 1]
+        .arrayE 13 .nil .nil .dflt .int,                       -- [ HOLE ] : int
+        .subE (.cons exOne .nil) .nil,                         -- [ 1, HOLE ]
+        .rangeF 13 [(exOne, exOne)] exOne .nil ] }              -- [ 1 .. 1, HOLE .. 1 ]
+
+def exΓ2 : Env := match exP2.holeEnv with | .ok Γ => Γ | .error _ => default
+theorem exP2_reaches : exP2.holeEnv = .ok exΓ2 := rfl
+example : check (exP2.plug (.id 14 "nosuch")) = .error ⟨14, .undefId⟩ :=
+  rejects_undefined_name exP2 exΓ2 14 "nosuch" exP2_reaches rfl
+example : check (exP2.plug (.ass 14 (.id 14 "q") exOne)) = .error ⟨14, .assignConst⟩ :=
+  context_error_propagates exP2 exΓ2 _ _ exP2_reaches rfl
+
 end Never.C06
